@@ -400,3 +400,119 @@ Proof.
             | exists Up, W3; vm_compute; discriminate
             | exists Down, W4; vm_compute; discriminate ].
 Qed.
+
+(* ---- remove(): the transfer leaves the list; abort is attempted first but is refused (and the refusal
+   swallowed) for COMPLETE/FAILED/ABORTED/PAUSED transfers, in which case nothing is cancelled ---------- *)
+Lemma removed_quiet : forall f evs s, sremoved s = true -> live s = [] -> after_remove_obs f s evs = [].
+Proof.
+  intros f evs. induction evs as [|e r IH]; intros s R L; [reflexivity|].
+  cbn [after_remove_obs].
+  assert (K : sremoved (fst (step f s e)) = true /\ live (fst (step f s e)) = [] /\ snd (step f s e) = []).
+  { destruct e; cbn [step]; rewrite ?R; try (rewrite (find_task_nil s k L)); cbn; auto.
+    destruct (find (fun c => fst c =? k) (cbs s)) as [[k' kd]|]; [|cbn; auto].
+    destruct (cb_cond f); [destruct (get_slot kd _) as [j|]; [destruct (j =? k)|]|];
+      destruct s, kd; cbn in *; auto. }
+  destruct (step f s e) as [s' o]. cbn [fst snd] in K. destruct K as (K1 & K2 & K3). subst o.
+  rewrite (IH s' K1 K2). destruct (sremoved s); reflexivity.
+Qed.
+
+Lemma remove_partial : forall f s evs, c_rq f = true -> c_tr f = true -> tracked s -> sremoved s = false ->
+  (stoppable s = true \/ live s = []) -> after_remove_obs f (fst (step f s Remove)) evs = [].
+Proof.
+  intros f s evs Crq Ctr T NR H. cbn [step]. rewrite NR. cbn [fst]. apply removed_quiet.
+  - destruct (do_stop f s); reflexivity.
+  - destruct H as [SP|L].
+    + destruct (cancel_reaches_slot f s Crq Ctr SP) as (_ & _ & _ & C). specialize (C T).
+      destruct (do_stop f s); cbn in *; exact C.
+    + unfold do_stop. destruct (stoppable s) eqn:SP.
+      * destruct (cancel_reaches_slot f s Crq Ctr SP) as (_ & _ & _ & C). specialize (C T).
+        unfold do_stop in C. rewrite SP in C. destruct (with_stop _ _ _); cbn in *; exact C.
+      * destruct s; cbn in *; exact L.
+Qed.
+
+(* a download whose own remote-queue attempt is still connecting is completed through a transfer the peer
+   initiated; remove() then cancels nothing and the attempt still delivers PeerTransferQueue *)
+Definition W6 : list event := [Cycle; Start 0; PeerMsg; Start 1; Begin 1; Finish 1; DoneCb 1; Remove; Deliver 0].
+
+(* ---- a cycle inside a running stop call ------------------------------------------------------------ *)
+Record IJ (s : ist) : Prop := mkIJ {
+  ij_tracked : forall t, In t (i_live s) -> i_slot s = Some (fst t);
+  ij_locked : i_locked s = true -> i_queued s = true /\ forall t, In t (i_live s) -> snd t = ICancelling;
+  ij_stopped : i_stopped s = true -> i_live s = [] /\ i_queued s = false /\ i_locked s = false }.
+
+Lemma i_free_nil : forall s, IJ s -> i_slot_free s = true -> i_live s = [].
+Proof.
+  intros s J F. destruct (i_live s) as [|t r] eqn:L; [reflexivity|]. exfalso.
+  assert (Ht : In t (i_live s)) by (rewrite L; cbn; auto).
+  pose proof (ij_tracked s J t Ht) as E. unfold i_slot_free in F. rewrite E in F.
+  apply negb_true_iff in F. unfold i_is_live in F. rewrite L in F. cbn in F. rewrite Nat.eqb_refl in F. discriminate.
+Qed.
+
+Lemma IJ_step : forall s e, IJ s -> IJ (fst (istep true s e)) /\ (i_stopped s = true -> snd (istep true s e) = []).
+Proof.
+  intros s e J. pose proof J as [T L S]. destruct e; cbn [istep].
+  - (* ICycle *) cbn [negb orb]. destruct (i_queued s && i_slot_free s && negb (i_locked s)) eqn:C; cbn [fst snd]; [|auto].
+    apply andb_true_iff in C. destruct C as (C & NL). apply andb_true_iff in C. destruct C as (Q & F).
+    apply negb_true_iff in NL. pose proof (i_free_nil s J F) as E. split; [|auto].
+    constructor; cbn.
+    + rewrite E. intros t [<-|[]]. reflexivity.
+    + intros H. congruence.
+    + intros H. destruct (S H) as (_ & Q' & _). congruence.
+  - (* IStopBegin *) destruct (i_queued s && negb (i_locked s)) eqn:C; cbn [fst snd]; [|auto].
+    apply andb_true_iff in C. destruct C as (Q & NL). split; [|auto]. constructor; cbn.
+    + intros t Ht. apply in_map_iff in Ht. destruct Ht as (a & <- & Ha). specialize (T a Ha).
+      destruct (match i_slot s with Some k => fst a =? k | None => false end); cbn; exact T.
+    + intros _. split; [reflexivity|]. intros t Ht. apply in_map_iff in Ht. destruct Ht as (a & <- & Ha).
+      rewrite (T a Ha). rewrite Nat.eqb_refl. reflexivity.
+    + intros H. destruct (S H) as (_ & Q' & _). congruence.
+  - (* IReap *) cbn [fst snd]. split; [|auto]. constructor; cbn.
+    + intros t Ht. apply filter_In in Ht. apply T. tauto.
+    + intros H. destruct (L H) as (Q & A). split; [exact Q|]. intros t Ht. apply filter_In in Ht. apply A. tauto.
+    + intros H. destruct (S H) as (E & Q & K). rewrite E. auto.
+  - (* IStopEnd *) destruct (i_locked s && forallb _ (i_live s)) eqn:C; cbn [fst snd]; [|auto].
+    apply andb_true_iff in C. destruct C as (Lk & F).
+    assert (E : i_live s = []).
+    { destruct (i_live s) as [|t r] eqn:Lv; [reflexivity|]. exfalso. destruct (L Lk) as (_ & A).
+      rewrite forallb_forall in F. specialize (F t (or_introl eq_refl)). rewrite (A t (or_introl eq_refl)) in F. discriminate. }
+    split; [|auto].
+    constructor; cbn; rewrite ?E; auto. intros t []. intros; discriminate.
+  - (* IDeliver *) destruct (existsb _ (i_live s)) eqn:X; cbn [fst snd]; [|auto].
+    apply existsb_exists in X. destruct X as (t & Ht & P). apply andb_true_iff in P. destruct P as (_ & P).
+    assert (NL : i_locked s = false).
+    { destruct (i_locked s) eqn:Lk; [|reflexivity]. destruct (L eq_refl) as (_ & A). rewrite (A t Ht) in P. discriminate. }
+    split.
+    + constructor; cbn.
+      * intros a Ha. apply filter_In in Ha. apply T. tauto.
+      * intros H. congruence.
+      * intros H. destruct (S H) as (E & _). rewrite E in Ht. destruct Ht.
+    + intros H. destruct (S H) as (E & _). rewrite E in Ht. destruct Ht.
+  - (* IFail *) destruct (existsb _ (i_live s)) eqn:X; cbn [fst snd]; [|auto].
+    apply existsb_exists in X. destruct X as (t & Ht & P). apply andb_true_iff in P. destruct P as (_ & P).
+    assert (NL : i_locked s = false).
+    { destruct (i_locked s) eqn:Lk; [|reflexivity]. destruct (L eq_refl) as (_ & A). rewrite (A t Ht) in P. discriminate. }
+    split.
+    + constructor; cbn.
+      * intros a Ha. apply filter_In in Ha. apply T. tauto.
+      * intros H. congruence.
+      * intros H. destruct (S H) as (E & _). rewrite E in Ht. destruct Ht.
+    + intros H. destruct (S H) as (E & _). rewrite E in Ht. destruct Ht.
+  - (* IRequeue *) destruct (i_queued s) eqn:Q; cbn [fst snd]; [auto|]. split; [|auto]. constructor; cbn; auto.
+    + intros H. destruct (L H) as (Q' & _). congruence.
+    + intros; discriminate.
+Qed.
+
+Lemma IJ_init : IJ i_init.
+Proof. constructor; cbn; try (intros ? []); intros; discriminate. Qed.
+
+Lemma interleaved_guarded : forall evs s, IJ s -> i_after_stop_obs true s evs = [] /\ IJ (irun true s evs).
+Proof.
+  intros evs. induction evs as [|e r IH]; intros s J; [split; [reflexivity|exact J]|].
+  destruct (IJ_step s e J) as (J' & O). destruct (IH _ J') as (A & B).
+  cbn [i_after_stop_obs irun]. destruct (istep true s e) as [s' o]. cbn [fst snd] in *.
+  split; [|exact B]. rewrite A. destruct (i_stopped s); [rewrite O; reflexivity|reflexivity].
+Qed.
+
+(* today (no lock test in the cycle): a cycle right after the cancelled task finished, before the stop call
+   continues, starts a new attempt that the call never cancels *)
+Definition WI : list ievent := [ICycle; IStopBegin; IReap 0; ICycle; IStopEnd; IDeliver 1].
+Definition WI' : list ievent := [ICycle; IStopBegin; IReap 0; ICycle; IStopEnd; IFail 1].
